@@ -127,13 +127,13 @@ def generate(seed, tier):
     for i in range(rc.randint(8, 40)):
         si = ro.randrange(len(world['spaces']))
         m = models[si]
-        if ops and rf.random() < 0.06:
+        if ops and rf.random() < (0.14 if world.get('cache') else 0.06):
             # outside any call of the parser the host calls a lambda an earlier evaluation left in this names mapping
             ops.append({'op': 'hostcall', 'space': si, 'which': rf.randrange(4), 'arg': rf.choice([0, 1, 2, 'a']), 'src': ''})
             continue
         env = {k: type_of(v) for k, v in m.host.items()}
         arity = {k: len(v.params) for k, v in m.host.items() if getattr(v, '_sim_kind', '') == 'lambda'}
-        if pool and ro.random() < 0.3:
+        if pool and ro.random() < (0.45 if world.get('cache') else 0.3):
             src_prog, src = ro.choice(pool)
         elif ro.random() < 0.3:
             # any entry of the builtin table (regex, random, pretty ... included), results piped into further builtins,
